@@ -204,6 +204,11 @@ func lockOrder(c *cx, id string) {
 	// relative lock order cannot meet another goroutine's
 	neg := map[*eng.Fn]bool{}
 	for _, f := range negSet(c, id) {
+		// the closer types and the session's own methods are used by the
+		// negotiation AND at serve time by the application's goroutines
+		if strings.HasPrefix(f.Short, "xmpp.(*lockReadCloser).") || strings.HasPrefix(f.Short, "xmpp.(*lockWriteCloser).") {
+			continue
+		}
 		neg[f] = true
 	}
 	for _, f := range c.allFns() {
@@ -225,6 +230,15 @@ func lockOrder(c *cx, id string) {
 			ls, ok := li.AtNode(cl)
 			if !ok {
 				continue
+			}
+			// the methods of the closer types run with the session lock their
+			// constructor took (typestate, C05.2): lockReadCloser holds the
+			// input lock, lockWriteCloser the output lock
+			switch {
+			case strings.HasPrefix(f.Short, "xmpp.(*lockReadCloser)."):
+				ls = ls.With("xmpp.Session.in")
+			case strings.HasPrefix(f.Short, "xmpp.(*lockWriteCloser)."):
+				ls = ls.With("xmpp.Session.out")
 			}
 			for held := range ls {
 				if held == cls {
